@@ -678,7 +678,7 @@ fn dispatch(ctx: &Ctx, c: &Case, prop: &str, t64: &TTable, t32: &TTable, seed: u
 fn main() {
     engine_main("stats", |ctx: Arc<Ctx>| {
         let prop = ctx.args.property.clone();
-        let seed: u64 = ctx.args.extra.get("seed").map(|s| s.parse().unwrap()).unwrap_or(0);
+        let seed: u64 = std::env::var("VERIF_SEED").ok().and_then(|s| s.parse().ok()).unwrap_or(0);
         let t64 = load_ttable("f64");
         let t32 = load_ttable("f32");
         if let Some(r) = &ctx.args.replay {
